@@ -133,17 +133,11 @@ theorem chain_rest_bound_lazy_paused {w : Wiring} {n : Nat} {s : Net} (hw : Well
   rw [run_pulled σ hσ] at h1
   omega
 
-/-
-  GENERAL DAGs.  Full statement (not proved): for `net = wire c` of ANY plugin graph (diamonds, multi-output dividers,
-  several sources, plugins with several dependencies) and every reachable state,
-      emitted(source) ≤ pulled + B(net)   with   B(net) = 2 · Σ cap(m) over the mailboxes m on a path source → target.
-  Proved: everything in that sum that is a property of ONE mailbox, for every mailbox of every pipeline whatever threads
-  call its critical sections in whatever order (`MBReach`): the capacity, and the sender being at most `cap` ahead of
-  every one of its readers.  Missing: the stage-level link "taken from the input = passed on to the output + held, held ≤
-  cap" (`Inv.stage`) for stages with several inputs / outputs (`Plugin.iter` aligns inputs by time, `divide_outputs`
-  sends one dict to several mailboxes), which needs the synchronous-index abstraction of DESIGN §6 C06.
--/
-theorem dag_local_backpressure_partial {c : Nat} {lazy : Bool} {rule : GateRule} {drive : List Bool} {mb : MB}
+/-- ONE MAILBOX, ANY CALLERS (flag-level model of Model/Mailbox.lean): whatever threads call its critical sections in
+whatever order (`MBReach`: any subscribers / drive flags / gate rule / mode), it never buffers more than its capacity
+and its sender is never more than the capacity ahead of any of its readers.  The rest bound for general plugin graphs
+(trees, diamonds, dividers) is in Props/C13Dag.lean, over the networks of Model/Net.lean. -/
+theorem mailbox_local_backpressure {c : Nat} {lazy : Bool} {rule : GateRule} {drive : List Bool} {mb : MB}
     (hd : drive ≠ []) (h : MBReach c lazy rule drive mb) :
     mb.heap.length ≤ c ∧ ∀ sub ∈ mb.subs, mb.nSent ≤ sub.next + c :=
   ⟨(h.cnt hd).capOk, fun _ hs => (h.cnt hd).backlog_sub hs⟩
